@@ -22,6 +22,7 @@ import (
 	"verif/ref/refp7"
 	"verif/ref/refpe"
 	"verif/shim/vtime"
+	"verif/weakeq"
 )
 
 func init() {
@@ -81,8 +82,14 @@ func c02Bases() []struct {
 func c02Units(tier string) []string {
 	var u []string
 	for _, b := range c02Bases() {
-		for _, k := range []int{1, 4} {
+		for _, k := range []int{1, 4, 7} {
 			if k == 4 && b.name != "layout0" && b.name != "test.pecoff" && tier != "thorough" {
+				continue
+			}
+			if k == 7 { // the e=3 key: structural edits (forgeries without the private key) only
+				if b.name == "layout0" {
+					u = append(u, fmt.Sprintf("edits#%s#k%d", b.name, k))
+				}
 				continue
 			}
 			for s := 0; s < c02ByteShards; s++ {
@@ -327,6 +334,9 @@ func c02Run(c *hx.Ctx, tier, unit string) {
 		}
 		seed := p7Seed{Name: "image signature", Blob: sig, Signer: keys.C(k), Key: keys.K(k), Wrong: keys.C(2), SameName: samePlate(keys.C(k)), HasAttrs: true}
 		for _, e := range p7Edits(seed) {
+			if e.RobustOnly {
+				continue
+			}
 			c.Count("structural_edits", 1)
 			c02Judge(c, c02Embed(unsigned, e.Blob), e.Name, certs, false)
 		}
@@ -422,6 +432,26 @@ func c02Run(c *hx.Ctx, tier, unit string) {
 					t.si.Children[1].Children[1].Val = serialBytes(keys.C(2).SerialNumber)
 				}
 				c02Judge(c, c02Embed(mod, t.root.Encode()), variant, certs, false)
+			}
+		}
+		// the right key signs a digest that is NOT the image's but that a comparison weaker than
+		// equality (checksum, fold, prefix) would take for it
+		if d0, _, derr := refpe.Digest(unsigned); derr == nil {
+			for _, tw := range weakeq.Twins(d0) {
+				t, err := p7Open(sig)
+				if err != nil {
+					continue
+				}
+				inner := t.ci.Children[1].Children[0]
+				inner.Children[1].Children[1].Val = append([]byte{}, tw.Value...)
+				md := sha256Sum(inner.Content())
+				for _, a := range t.attrs.Children {
+					if bytes.Equal(a.Children[0].Val, refp7.OIDMessageDigest) {
+						a.Children[1].Children[0].Val = md
+					}
+				}
+				t.si.Children[t.sigIdx].Val = signAttrs(keys.K(k), t.attrs)
+				c02Judge(c, c02Embed(unsigned, t.root.Encode()), "signature by the right key over another digest value with "+tw.Name, certs, false)
 			}
 		}
 		// signature kept, image byte changed (no blob edit), at every region boundary
